@@ -59,6 +59,32 @@ pub fn make_source(prog: &Program) -> Result<(Vec<u8>, Vec<(u64, u64)>), (String
     Ok((w.image, w.exec.blob_descs))
 }
 
+/// The same operation on a freshly opened reader whose device injects `kind` at the first read of
+/// page `page` inside the operation. None if the fresh reader never reads that page there (it
+/// still holds it from the open) or cannot be opened.
+fn fresh_result_with_fault(image: &[u8], standalone: &[(u64, u64)], op: &ROp, page: u64, kind: &FaultKind) -> Option<OpResult> {
+    // fault-free pass to find the device operation
+    let ctx = new_ctx(vec![]);
+    let d = SimDisk::new(&ctx, DEV_DISK3, image.to_vec(), &Chunk::Full);
+    let mut r = E57Reader::new(d).ok()?;
+    let pcs = r.pointclouds();
+    let blobs = all_blobs(&r, standalone);
+    ctx.borrow_mut().record_ops = true;
+    let rec = run_op(&mut r, &ctx, &pcs, &blobs, op, DEV_PIPE + 200);
+    let at = ctx.borrow().log.iter().find(|o| o.no >= rec.op_from && o.no < rec.op_to && o.dev == DEV_DISK3 && o.kind == OpKind::Read && o.offset / 1024 == page).map(|o| o.no)?;
+    drop(r);
+    let ctx = new_ctx(vec![Fault { at, kind: kind.clone() }]);
+    let d = SimDisk::new(&ctx, DEV_DISK3, image.to_vec(), &Chunk::Full);
+    let mut r = E57Reader::new(d).ok()?;
+    let pcs = r.pointclouds();
+    let blobs = all_blobs(&r, standalone);
+    let res = run_op(&mut r, &ctx, &pcs, &blobs, op, DEV_PIPE + 200).result;
+    if ctx.borrow().fired.is_empty() {
+        return None;
+    }
+    Some(res)
+}
+
 fn fresh_result(image: &[u8], standalone: &[(u64, u64)], op: &ROp) -> Option<OpResult> {
     let ctx = new_ctx(vec![]);
     let d = SimDisk::new(&ctx, DEV_DISK3, image.to_vec(), &Chunk::Full);
@@ -99,6 +125,7 @@ fn run_case(case: &Case, st: &mut RunStats) -> Outcome<Case> {
     }
     let ctx = new_ctx(faults.clone());
     ctx.borrow_mut().record_ops = !faults.is_empty();
+    let mut same_fault_compared = 0u64;
     let run = reader_run(&image, &ctx, &case.rchunk, &standalone, &case.hist, false);
     st.absorb_ctx(&ctx);
     if run.open.is_err() {
@@ -137,6 +164,38 @@ fn run_case(case: &Case, st: &mut RunStats) -> Outcome<Case> {
                 ),
             );
         }
+        // exactly one injected fault, at a read of the reader's device inside this operation: the
+        // outcome must also be that of a fresh reader which meets the same fault at its first read
+        // of the same page (whether a fault surfaces or is absorbed must not depend on the history)
+        let mine: Vec<&Fault> = faults.iter().filter(|f| rec.op_from <= f.at && f.at < rec.op_to).collect();
+        if let [f] = mine[..] {
+            let hit = ctx.borrow().log.iter().find(|o| o.no == f.at).cloned();
+            let fired = ctx.borrow().fired.iter().any(|x| x.no == f.at);
+            if let (true, Some(o)) = (fired, hit) {
+                if o.dev == DEV_DISK2 && o.kind == OpKind::Read && !matches!(f.kind, FaultKind::Mutate(_)) {
+                    let page = o.offset / 1024;
+                    let first_of_page = !ctx.borrow().log.iter().any(|p| p.no >= rec.op_from && p.no < o.no && p.dev == DEV_DISK2 && p.kind == OpKind::Read && p.offset / 1024 == page);
+                    if first_of_page {
+                        if let Some(ff) = fresh_result_with_fault(&image, &standalone, &case.hist[i], page, &f.kind) {
+                            same_fault_compared += 1;
+                            if ff.is_err() != rec.result.is_err() {
+                                return Outcome::fail(
+                                    "fault-outcome-depends-on-history",
+                                    format!(
+                                        "history op #{i} {:?} with {} injected at a read of page {page}: on the used reader {}, on a fresh reader with the same fault {} (ops before: {})",
+                                        case.hist[i],
+                                        f.kind.name(),
+                                        rec.result.brief(),
+                                        ff.brief(),
+                                        run.recs[..i].iter().map(|r| r.result.brief()).collect::<Vec<_>>().join("; ")
+                                    ),
+                                );
+                            }
+                        }
+                    }
+                }
+            }
+        }
         if any_failed_before && !faulted && !rec.result.is_err() && rec.op_to > rec.op_from {
             cache_hit_after_failed_read = true;
         }
@@ -151,6 +210,8 @@ fn run_case(case: &Case, st: &mut RunStats) -> Outcome<Case> {
     st.probe("op_after_failed_op_succeeds", cache_hit_after_failed_read);
     st.probe("partially_consumed_iterator", partial_before);
     st.probe("transient_fault_fired", !failed_ops.is_empty());
+    st.probe("short_operation_after_scan_of_64_pages", run.recs.windows(2).any(|w| w[0].op_to - w[0].op_from >= 128 && !w[0].result.is_err() && w[1].op_to > w[1].op_from && w[1].op_to - w[1].op_from < 40));
+    st.count("faulted_ops_compared_with_fresh_reader_under_same_fault", same_fault_compared);
     st.probe("static_damage_seen", case.damage.len() > 0 && run.recs.iter().any(|r| r.result.is_err()) && failed_ops.is_empty());
     st.digest = dg.finish();
     let nontrivial = run.recs.iter().filter(|r| r.op_to > r.op_from).count() >= 2;
@@ -212,6 +273,76 @@ pub fn draw_damage(g: &mut Rng, image: &[u8], standalone: &[(u64, u64)], sealed:
     out
 }
 
+/// A long sequential scan (64..130 pages, every page-count residue modulo 16 over the run index)
+/// followed by a short operation on the neighbouring item, with a damaged page in the item
+/// behind it that the short operation does not need: state a reader may build up during a long
+/// scan (read-ahead, adaptive buffering) must not leak into what follows.
+fn long_scan_case(rc: &RunCtx) -> Case {
+    use crate::model::*;
+    let mut r = Rng::stream(rc.run_seed, "scan");
+    let k = ((rc.index / 16) % 16) as usize;
+    let big_bytes = (64 + k + 16 * r.usize_below(4)) * 1020 + r.usize_below(1020);
+    let xyz = |r: &mut Rng| -> Vec<Rec> {
+        let dt = if r.chance(1, 2) { DType::Double { min: None, max: None } } else { DType::Single { min: None, max: None } };
+        [0u8, 1, 2].iter().map(|i| Rec { name: Name::Std(*i), dt: dt.clone() }).collect()
+    };
+    let mut calls = Vec::new();
+    let mut hist = Vec::new();
+    let mut n_pcs = 0usize;
+    let mut n_blobs = 0usize;
+    // small things in front so that the scan does not start at a fixed page
+    if r.chance(1, 2) {
+        let n = r.usize_below(5000);
+        calls.push(Call::Blob { data: Bytes::draw(&mut r, n), pipe: Chunk::Full, fail_after: None });
+        n_blobs += 1;
+    }
+    // the long item
+    if r.chance(1, 2) {
+        calls.push(Call::Blob { data: Bytes::draw(&mut r, big_bytes), pipe: Chunk::Full, fail_after: None });
+        hist.push(ROp::Blob { which: n_blobs, sink: Chunk::Full });
+        n_blobs += 1;
+    } else {
+        let proto = xyz(&mut r);
+        let per_point: usize = proto.iter().map(|p| p.dt.bits() as usize / 8).sum();
+        calls.push(Call::Pc { guid: gen_guid(&mut r), proto, steps: vec![PcStep::Points { n: big_bytes / per_point, seed: r.next_u64() }], end: SubEnd::Finalize });
+        hist.push(if r.chance(1, 2) { ROp::Raw { pc: n_pcs, take: None } } else { ROp::Simple { pc: n_pcs, opts: r.below(64) as u8, take: None } });
+        n_pcs += 1;
+    }
+    // the short neighbour
+    if r.chance(1, 2) {
+        let n = 1 + r.usize_below(4000);
+        calls.push(Call::Blob { data: Bytes::draw(&mut r, n), pipe: Chunk::Full, fail_after: None });
+        hist.push(ROp::Blob { which: n_blobs, sink: Chunk::Full });
+        n_blobs += 1;
+    } else {
+        let proto = xyz(&mut r);
+        let n = 1 + r.usize_below(150);
+        calls.push(Call::Pc { guid: gen_guid(&mut r), proto, steps: vec![PcStep::Points { n, seed: r.next_u64() }], end: SubEnd::Finalize });
+        hist.push(ROp::Raw { pc: n_pcs, take: None });
+    }
+    // the item behind it, at least 17 pages
+    let behind = n_blobs;
+    let n = 17 * 1020 + r.usize_below(3000);
+    calls.push(Call::Blob { data: Bytes::draw(&mut r, n), pipe: Chunk::Full, fail_after: None });
+    let prog = Program { guid: gen_guid(&mut r), calls, end: End::Finalize, knob: Some(*r.pick(&KNOBS)), on_error: OnError::Stop };
+    let extra = r.usize_below(3);
+    hist.extend(gen_history(&mut r, extra));
+    if r.chance(1, 3) {
+        // the short operation once more in front, on the still fresh reader
+        let x = hist[1].clone();
+        hist.insert(0, x);
+    }
+    let mut damage = Vec::new();
+    if let Ok((_, standalone)) = make_source(&prog) {
+        if let Some((off, _)) = standalone.get(behind) {
+            // within the 15 pages behind the start of that item
+            damage.push(Patch::Xor { offset: off + 40 + r.below(15 * 1024), mask: 1 << r.below(8) });
+        }
+    }
+    let mut c = Rng::stream(rc.run_seed, "chunk-dev");
+    Case { prog, damage, sealed: false, hist, faults: vec![], rchunk: Chunk::draw(&mut c) }
+}
+
 impl Prop for C17 {
     type Case = Case;
     fn id(&self) -> &'static str {
@@ -220,7 +351,7 @@ impl Prop for C17 {
     fn meta(&self) -> Meta {
         Meta {
             level: "exploration",
-            rule: "source file = seeded writer program (0-5 items, knob on) written fault-free; optionally static damage located with the crate's own descriptors: 1-2 bit flips in section pages, unsealed (damaged pages) or resealed (damaged section / packet headers); history of 2-12 seeded read operations on ONE open E57Reader<SimDisk> (xml, listings, raw / simple iteration with early termination after 0..40 points and drawn option bits, blob extraction into chunked sinks) under a seeded short-read schedule; in every second run up to three transient device faults (hard error; short transfer then error) at drawn device operations INSIDE drawn history operations, everything else fault-free. Oracle: each operation without an injected fault equals the result of the same operation on a freshly opened reader over the same stored bytes; an operation with an injected fault is Err (what it yielded before is a prefix of the fresh result) or equals the fresh result. Distinct = hash(history op kinds/targets/early-termination class, Ok/Err pattern, fault kinds, damage mode); non-trivial = at least two operations touched the device".into(),
+            rule: "source file = seeded writer program (0-5 items, knob on) written fault-free; optionally static damage located with the crate's own descriptors: 1-2 bit flips in section pages, unsealed (damaged pages) or resealed (damaged section / packet headers); history of 2-12 seeded read operations on ONE open E57Reader<SimDisk> (xml, listings, raw / simple iteration with early termination after 0..40 points and drawn option bits, blob extraction into chunked sinks) under a seeded short-read schedule; in every second run up to three transient device faults (hard error; short transfer then error; TimedOut / WouldBlock / Interrupted) at drawn device operations INSIDE drawn history operations, or one transient condition in EVERY operation of the history; everything else fault-free. Every sixteenth run is a long-scan case: an item of 64..130 pages (blob or point cloud, page count over every residue modulo 16) is read to its end, then its short neighbour, while a page of the item behind the neighbour is damaged. Oracle: each operation without an injected fault equals the result of the same operation on a freshly opened reader over the same stored bytes; an operation with an injected fault is Err (what it yielded before is a prefix of the fresh result) or equals the fresh result; where exactly one fault hit the first read of a page inside an operation, the operation must in addition fail or succeed exactly as on a fresh reader whose device injects the same fault at its first read of that page (whether a fault surfaces or is absorbed must not depend on the history). Distinct = hash(history op kinds/targets/early-termination class, Ok/Err pattern, fault kinds, damage mode); non-trivial = at least two operations touched the device".into(),
             assumptions: vec![
                 "errors are compared as 'is Err' only".into(),
                 "iterators are driven to the first Err or None".into(),
@@ -232,6 +363,7 @@ impl Prop for C17 {
                 "partially_consumed_iterator".into(),
                 "transient_fault_fired".into(),
                 "static_damage_seen".into(),
+                "short_operation_after_scan_of_64_pages".into(),
             ],
         }
     }
@@ -242,6 +374,9 @@ impl Prop for C17 {
         }
     }
     fn generate(&self, rc: &RunCtx) -> Case {
+        if rc.index % 16 == 7 {
+            return long_scan_case(rc);
+        }
         let mut g = Rng::stream(rc.run_seed, "cfg");
         let cfg = source_cfg(&mut g, true);
         let prog = gen_program(rc.run_seed, &cfg);
@@ -259,10 +394,27 @@ impl Prop for C17 {
         }
         let mut faults = Vec::new();
         if rc.index % 2 == 1 {
-            let n = 1 + f.usize_below(3);
-            for _ in 0..n {
-                let kind = if f.chance(1, 2) { FaultKind::Error } else { FaultKind::ShortThenError { bytes: 1 + f.below(1023) as u32 } };
-                faults.push((f.usize_below(hist.len()), f.below(64), kind));
+            if rc.index % 8 == 5 {
+                // a transient condition (timeout, would-block, EINTR) in every operation of the history
+                for i in 0..hist.len() {
+                    let kind = match f.below(5) {
+                        0 => FaultKind::Interrupted,
+                        1 | 2 => FaultKind::Transient { kind: 0 },
+                        _ => FaultKind::Transient { kind: 1 },
+                    };
+                    faults.push((i, f.below(24), kind));
+                }
+            } else {
+                let n = 1 + f.usize_below(3);
+                for _ in 0..n {
+                    let kind = match f.below(8) {
+                        0..=2 => FaultKind::Error,
+                        3..=5 => FaultKind::ShortThenError { bytes: 1 + f.below(1023) as u32 },
+                        6 => FaultKind::Transient { kind: f.below(6) as u8 },
+                        _ => FaultKind::Interrupted,
+                    };
+                    faults.push((f.usize_below(hist.len()), f.below(64), kind));
+                }
             }
         }
         let mut c = Rng::stream(rc.run_seed, "chunk-dev");
